@@ -70,6 +70,7 @@ class Engine(object):
         self.outcomes = None
         from . import externs
         externs.install(self)
+        externs.install_tokenize(self)
 
     # ---- bookkeeping -----------------------------------------------------------------------
     def oblige(self, name, st, goal, line=None, kind='check', watch=None):
